@@ -37,6 +37,8 @@ const EXTRA: &[&str] = &[";", "1.5", "5.8", "5.4", "7", "-1", "4294967296", "999
     // glued to a number, to a number followed by U+00A0, and alone
     "\"\u{65e5}\n\"", "\"\u{e9}\u{e9}\n", "\r5.8", "\r0.005\u{a0};", "\r",
     "7922816251426433759354395034", "79228162514264337593543950335", "-79228162514264337593543950335", "0.0000000000000000000000000001", "1e29", "1e400",
+    // more decimals than a 96-bit decimal can hold (29, 36), small and with a long mantissa
+    "0.00000000000000000000000000001", "-0.000000000000000000000000000000000001", "1.00000000000000000000000000001", ".00000000000000000000000000005",
 ];
 
 /// Texts with a fault on a line longer than 200 bytes that is full of multi-byte characters (error reports quote
@@ -461,7 +463,7 @@ impl Driver for C11 {
         let nchar: usize = bs.iter().map(|b| b.text.chars().count()).sum();
         Describe {
             rule: format!(
-                "{} base texts ({} tokens, {} characters): the default rendering of every generator focus plus variants (versions, no END LIBRARY, mixed case, joined properties, all nine geometries), every raw string literal of lef21/src/tests.rs and read.rs, macro.lef, lib1.yaml, lib2.yaml, the empty file. Faults: every character-boundary prefix; at every token (comments and string literals included): deleted, duplicated, swapped with the next, replaced by each of {} tokens ({} keywords / enumeration words, ';', numbers, a name, a string literal, the empty string literal, an unterminated string, '-', '.', 1e9, -inf, a comment, five tokens starting with a non-ASCII numeric character, six numbers at and beyond the limits of a 96-bit decimal); 7 faulty texts whose faulty line is longer than 200 bytes and filled with 2- / 3- / 4-byte characters at every byte alignment; {} non-ASCII strings (2-, 3-, 4-byte, combining, U+00A0, U+2028, superscript two, fullwidth one, U+3000) inserted inside the token, as a token of its own, glued before / after it and in a comment before it{}; after each of {} parser contexts every token sequence of length <= {} over the same {} tokens, ending with a new-line and (length <= 2) ending with the last token's last character. distinct = distinct text (sequences are distinct by construction); non-trivial = non-blank text.",
+                "{} base texts ({} tokens, {} characters): the default rendering of every generator focus plus variants (versions, no END LIBRARY, mixed case, joined properties, all nine geometries), every raw string literal of lef21/src/tests.rs and read.rs, macro.lef, lib1.yaml, lib2.yaml, the empty file. Faults: every character-boundary prefix; at every token (comments and string literals included): deleted, duplicated, swapped with the next, replaced by each of {} tokens ({} keywords / enumeration words, ';', numbers, a name, a string literal, the empty string literal, an unterminated string, '-', '.', 1e9, -inf, a comment, five tokens starting with a non-ASCII numeric character, six numbers at and beyond the limits of a 96-bit decimal, four numbers with 29 / 36 decimals); 7 faulty texts whose faulty line is longer than 200 bytes and filled with 2- / 3- / 4-byte characters at every byte alignment; {} non-ASCII strings (2-, 3-, 4-byte, combining, U+00A0, U+2028, superscript two, fullwidth one, U+3000) inserted inside the token, as a token of its own, glued before / after it and in a comment before it{}; after each of {} parser contexts every token sequence of length <= {} over the same {} tokens, ending with a new-line and (length <= 2) ending with the last token's last character. distinct = distinct text (sequences are distinct by construction); non-trivial = non-blank text.",
                 bs.len(), ntok, nchar, repl().len(), lr::KEYWORDS.len(), NONASCII.len(),
                 format!("; on the {} smallest bases with at least 8 tokens every pair of faults (reduced operation set: delete, duplicate, swap, 25 replacements) at two non-adjacent tokens", tier.pick(6, 16)),
                 CONTEXTS.len(), tier.pick(2, 3), repl().len()
